@@ -76,3 +76,19 @@ Proof. exact @type_leaves_ok_exact. Qed.
 
 Print Assumptions C07_sound_end_to_end_partial.
 Print Assumptions C07_exclusion_is_exact.
+
+(* ------------------------------------------------------------------------------------------------------------
+   Extension (third round): the operand-order / constant-extraction WRAPPER of this domain is REGENERATED from the Python
+   source (tools/translate_single.py -> Gen/SingleGen.v, in an exception monad) and proved equal to the model's wrapper on
+   every comparison of table arity (Lemmas/SingleGenLemmas.v): an edit of the wrapper in /repo changes the subject of
+   these theorems on the next run. *)
+From Coq Require Import List String NArith ZArith Bool Arith.
+From Tealer Require Import Tables Leaves LeafPrelude Syntax Parse Cfg StackAst Keys KeysGen SingleGen Analysis Domains Eval LeafLemmas SingleLemmas ExecLemmas TypeLemmas SingleGenLemmas.
+
+Theorem C07_wrapper_regenerated :
+  forall (intcs : option (list N)) (fam : keyfam) (v : sval) (op : instr) (pos : nat) (args : list sval),
+       cond_leaf (cond_of v) op pos args ->
+       stack_pop_size op = Some (Datatypes.length args) -> type_single_gen intcs fam op pos args = Some (type_single intcs fam op pos args).
+Proof. exact @type_single_gen_eq_leaf. Qed.
+
+Print Assumptions C07_wrapper_regenerated.
